@@ -31,7 +31,12 @@ def tri_area(T):
 
 
 def tri_volume(T):
-    return float(np.einsum("ij,ij->i", T[:, 0], np.cross(T[:, 1], T[:, 2])).sum() / 6.0) if len(T) else 0.0
+    """Signed volume of closed surfaces, summed about the centroid of the triangles: the sum about the origin cancels
+    catastrophically for a small part placed far away (0.5 mm octahedron 915 mm out: 3e-9 absolute error)."""
+    if not len(T):
+        return 0.0
+    T = T - T.reshape(-1, 3).mean(axis=0)
+    return float(np.einsum("ij,ij->i", T[:, 0], np.cross(T[:, 1], T[:, 2])).sum() / 6.0)
 
 
 def is_closed(V, F):
